@@ -81,13 +81,17 @@ pub(crate) async fn service(
                 Ok(rb.finish())
             }
             Err(ServerError::NoSuchClient) => {
-                // Create a new client and repeat the `add_version` call.
+                // Create a new client and repeat the `add_version` call. Another request may
+                // have created the client since the check above, so look again under the
+                // protection of this transaction and leave an existing client untouched.
                 let mut txn = server_state
                     .server
                     .txn(client_id)
                     .map_err(server_error_to_actix)?;
-                txn.new_client(NIL_VERSION_ID).map_err(failure_to_ise)?;
-                txn.commit().map_err(failure_to_ise)?;
+                if txn.get_client().map_err(failure_to_ise)?.is_none() {
+                    txn.new_client(NIL_VERSION_ID).map_err(failure_to_ise)?;
+                    txn.commit().map_err(failure_to_ise)?;
+                }
                 continue;
             }
             Err(e) => Err(server_error_to_actix(e)),
